@@ -272,4 +272,66 @@ theorem tI : (i : Items) → TI i
     exact ⟨ali_slot k v rest hk.1 hv.1 hr.1, qis_slot k v rest hk.2.1 hv.1 hr.1, qib_slot k v rest hk.2.1 hv.1 hr.1⟩
 end
 
+/-! ### the top level -/
+
+theorem feed_prim_init (e : Event) (he : e.isPrim = true) : (({} : VV).feed e).1 = {} := by
+  cases e <;> simp [Event.isPrim] at he <;> rfl
+
+theorem ok_end_top (a : Nat) (c : ItemCollection) :
+    Ok (S [F .noKey true a c] none) (S [F .noKey true a c] none) [.endRecord] [.endRecord] := by
+  apply Ok_match rfl
+  · rw [feed_endRecord_top]; exact VV.init_beq
+  · rw [feed_endRecord_top]; exact Ok_nil VV.init_beq
+
+/-- One value in any two layouts: the loop answers `Some(true)`. -/
+theorem mixed_same (ch1 ch2 : List Char → Bool) (x : Value) : Ok {} {} (evsG ch1 x) (evsG ch2 x) := by
+  by_cases hx : ∀ a i, x ≠ .record a i
+  · obtain ⟨e, he, hev, _⟩ := evsG_nonrec x hx
+    rw [hev, hev]
+    apply Ok_match (Event.beq_refl e)
+    · rw [feed_prim_init e he]; exact VV.init_beq
+    · rw [feed_prim_init e he]; exact Ok_nil VV.init_beq
+  · cases x with
+    | record a i =>
+      cases a with
+      | nil =>
+        have h0 : (({} : VV).feed .startBody).1 = S [F .noKey true 0 {}] none := rfl
+        have hitems := ((tI i).1 ch1 ch2 .noKey 0 [] .noKey 0 [] {} [.endRecord] [.endRecord]
+          (fun c => SR.refl _) (ok_end_top _ _)).1
+        simp only [evsG, evsGA, List.nil_append]
+        apply Ok_match rfl
+        · rw [h0]; exact beq_of_SR none (SR.refl _)
+        · rw [h0]; exact hitems
+      | cons n v r =>
+        have h0 : (({} : VV).feed (.startAttr n)).1 = S [F .attr true 0 {}, F .noKey false 0 {}] none := rfl
+        have hitems := ((tI i).1 ch1 ch2 .noKey (0 + (vtype v).len + alen r) [] .noKey (0 + (vtype v).len + alen r) []
+          {} [.endRecord] [.endRecord] (fun c => SR.refl _) (ok_end_top _ _)).1
+        have hsb : Ok (S [F .noKey false (0 + (vtype v).len + alen r) {}] none)
+            (S [F .noKey false (0 + (vtype v).len + alen r) {}] none)
+            (.startBody :: (evsGI ch1 i ++ [.endRecord])) (.startBody :: (evsGI ch2 i ++ [.endRecord])) := by
+          apply Ok_match rfl
+          · simp only [feed_startBody_header]; exact beq_of_SR none (SR.refl _)
+          · simp only [feed_startBody_header]; exact hitems
+        have hattrs := tA r ch1 ch2 .noKey (0 + (vtype v).len) {} [] [] _ _ (SR.refl _) hsb
+        have hb := alb n v (tV v) ch1 ch2 .noKey 0 {} [] [] _ _ (SR.refl _) hattrs
+        simp only [evsG, evsGA_cons, List.cons_append, List.append_assoc, List.nil_append]
+        apply Ok_match (Event.beq_refl _)
+        · rw [h0]; exact beq_of_SR none (SR.refl _)
+        · rw [h0]; exact hb
+    | _ => exact absurd (fun a i h => by cases h) hx
+
+/-- **Equal values in ANY two layouts compare `Some(true)`**: `ch1` / `ch2` choose, independently on the two sides,
+which attribute bodies are written without braces. -/
+theorem mixed_layouts (ch1 ch2 : List Char → Bool) (v w : Value) (h : veq v w = true) :
+    incrementalCompare (stream (evsG ch1 v, .fin)) (stream (evsG ch2 w, .fin)) = some true := by
+  have hs : ∀ l : List Event, stream (l, Term.fin) = l.map SItem.ev := by
+    intro l; simp [stream]
+  have hag := gV_agree (ch := ch2) v w h
+  rw [hs, hs]
+  unfold incrementalCompare
+  simp only [List.length_map]
+  rw [← evsAgree_length _ _ hag,
+    ← cmpLoop_congr _ _ _ (evsG ch1 v) (evsG ch1 v) (evsG ch2 v) (evsG ch2 w) (evsAgree_refl _) hag]
+  exact mixed_same ch1 ch2 v _ (by omega)
+
 end SwimVerif.ReconEq
